@@ -118,3 +118,15 @@ Example C16_ex_again : winsort 18 ex1_out = Some ex1_out /\ check_mode ex1_out =
 Proof. exact ex1_again. Qed.
 Example C16_ex_too_small : preb 17 ex1 = false /\ winsort 17 ex1 = None.
 Proof. exact ex1_too_small. Qed.
+
+(* ---- outside the precondition (not demanded by the property, recorded as behaviour of the model):
+   exit 0 with an unsorted stream when a body event is later than its OU], when an event outside any
+   region is out of order, or when a region is never closed *)
+Example C16_ex_silent_body_after_marker :
+  winsort 9 [Pl 1 0; Rs 5 1; Pl 3 2; Pl 9 3; Re 6 4; Pl 7 5] = Some [Pl 1 0; Pl 3 2; Rs 5 1; Pl 9 3; Re 6 4; Pl 7 5]
+  /\ check_mode [Pl 1 0; Pl 3 2; Rs 5 1; Pl 9 3; Re 6 4; Pl 7 5] = false.
+Proof. exact silent_body_after_marker. Qed.
+Example C16_ex_silent_outside_region : winsort 9 [Pl 5 0; Pl 3 1; Pl 7 2] = Some [Pl 5 0; Pl 3 1; Pl 7 2].
+Proof. exact silent_outside_region. Qed.
+Example C16_ex_silent_unterminated : winsort 9 [Pl 5 0; Rs 6 1; Pl 3 2; Pl 4 3] = Some [Pl 5 0; Rs 6 1; Pl 3 2; Pl 4 3].
+Proof. exact silent_unterminated. Qed.
